@@ -36,6 +36,7 @@ type vfCall struct {
 	alt       string        // acceptable alternative (ties)
 	notBefore time.Duration // earliest legal return (virtual)
 	notAfter  time.Duration // latest legal return
+	wantN     int           // when > 0: the number of bytes a Read must return
 	// result
 	done bool
 	got  string
@@ -103,6 +104,11 @@ func vfC13Scenarios() []vfC13Scn {
 		{name: "Read/fec-recovered-data-two-readers", target: "session", fec: true, calls: []vfCall{R(0, 0, "data", 10*ms, 30*ms+slack), R(0, 0, "data", 10*ms, 30*ms+slack)},
 			events: []vfEv{{10 * ms, "fec-data1", 0}, {30 * ms, "fec-parity-only", 0}}},
 		{name: "Read/after-close-drains-then-fails", target: "session", pre: []string{"data1", "settle", "Close"}, calls: []vfCall{R(0, 0, "data", 0, far), R(5*ms, 0, "closed", 5*ms, 5*ms+slack)}},
+		// "data already received" includes the tail of a message that was read in part before the Close, and the messages behind it
+		{name: "Read/after-close-drains-the-tail-of-a-partly-read-message", target: "session", pre: []string{"data1", "settle", "read3", "Close"},
+			calls: []vfCall{{op: "Read", want: "data", wantN: 2, notAfter: far}, R(5*ms, 0, "closed", 5*ms, 5*ms+slack)}},
+		{name: "Read/after-close-drains-tail-and-next-message", target: "session", pre: []string{"data2", "settle", "read3", "Close"},
+			calls: []vfCall{{op: "Read", want: "data", wantN: 2, notAfter: far}, {op: "Read", startAt: 5 * ms, want: "data", wantN: 6, notBefore: 5 * ms, notAfter: far}, R(10*ms, 0, "closed", 10*ms, 10*ms+slack)}},
 		// ---- Write (send window 2, two segments already outstanding)
 		{name: "Write/window-opens", target: "session", sndWnd: 2, pre: []string{"fill"}, calls: []vfCall{W(0, 0, "ok", 20*ms, 35*ms)}, events: []vfEv{{20 * ms, "ack1", 0}}},
 		{name: "Write/deadline-set-before", target: "session", sndWnd: 2, pre: []string{"fill"}, calls: []vfCall{W(0, 50*ms, "timeout", 50*ms, 50*ms+slack)}},
@@ -262,6 +268,10 @@ func vfC13Run(sc vfC13Scn, async bool) explore.RunFunc {
 					csock.inject(laddr, append(vfPush(0, []byte("first")), vfPush(1, []byte("second"))...))
 				case "settle":
 					vrt.Sleep(5 * ms)
+				case "read3": // the application reads the first three bytes of the first message
+					if n, err := sess.Read(make([]byte, 3)); n != 3 || err != nil {
+						bad("C13:setup", "Read of 3 bytes returned %d, %v", n, err)
+					}
 				case "fill":
 					for i := 0; i < sc.sndWnd; i++ {
 						if _, err := sess.Write([]byte("x")); err != nil {
@@ -382,6 +392,8 @@ func vfC13Run(sc vfC13Scn, async bool) explore.RunFunc {
 					return "never-returned", ""
 				case c.got != x.want && c.got != x.alt:
 					return "wrong-result", fmt.Sprintf("returned %q (n=%d, err=%v) at %s, expected %q", c.got, c.n, c.err, c.at, x.want)
+				case x.wantN > 0 && c.n != x.wantN:
+					return "wrong-amount", fmt.Sprintf("returned %d bytes at %s, expected %d (data received before the Close has to be drained first)", c.n, c.at, x.wantN)
 				case c.got == "timeout" && c.at < x.notBefore:
 					return "timeout-before-deadline", fmt.Sprintf("timed out at %s, before its effective deadline %s", c.at, x.notBefore)
 				case c.at > x.notAfter:
